@@ -356,3 +356,8 @@ func KnownDeadlockIf(id string, cond *bool) {}
 // KnownCrashIf attributes an uncaught panic / runtime fatal error to the
 // known finding id when *cond holds at that moment.
 func KnownCrashIf(id string, cond *bool) {}
+
+// ExploreMemory makes every load/store of non-local memory a scheduling point
+// (on top of ExploreSchedules): unsynchronised read-modify-write sequences can
+// then interleave, as they do on a real multiprocessor.
+func ExploreMemory(on bool) {}
